@@ -1,4 +1,4 @@
 SPECIFICATION Spec
 INVARIANTS MisuseIsError NoTypeConfusion TagImpliesNothing
-PROPERTY TotalsStable
+PROPERTY TotalsStable RefusalKeepsState
 CHECK_DEADLOCK FALSE
